@@ -15,7 +15,7 @@ import e2e
 import impl
 import preccorr
 
-LEAN_TARGETS = ["CM.Props.Lift", "CM.Props.C08", "CM.Props.Prec"]
+LEAN_TARGETS = ["CM.Props.Lift", "CM.Props.C08", "CM.Props.Prec", "CM.Props.C08Gen"]
 THEOREMS = [
     "CM.Pipeline.C08_run_equiv",
     "CM.Pipeline.run_preserves",
@@ -31,6 +31,11 @@ THEOREMS = [
     "CM.Prec.C08_combine_old_drops_parentheses",
     "CM.Prec.C08_invert_old_drops_parentheses",
     "CM.Prec.C08_walrus_old_loses_precedence",
+    "CM.Prec.C01_walrus_old_bare_tuple",
+    "CM.Generated.gen_inv_eq",
+    "CM.Prec.C08_inv_table_from_source",
+    "CM.Prec.C08_inv_source_involutive",
+    "CM.Prec.C08_invert_source_total",
 ]
 RULE = (
     "generated closed deterministic programs per refactoring family (operand kinds, and/or/not nesting and parenthesisation, tuple vs "
@@ -186,6 +191,15 @@ def fam_imports(rng):
             lines.insert(0, "from __future__ import print_function, division")
         body = [f"print({m}.__name__)" for m in used if f"import {m}" in lines]
         out.append("\n".join(lines) + "\n" + "\n".join(body) + "\nprint(sorted(k for k in globals() if not k.startswith('_'))[:0])\n")
+    for _ in range(8):
+        # the same import spelled twice (module level and function level, one of them unused); one object under two names
+        m, m2 = rng.sample(mods, 2)
+        top_used, inner_used = rng.choice([(True, False), (False, True), (True, True)])
+        out.append(f"import {m2}\nimport {m}\n" + (f"print({m}.__name__)\n" if top_used else "") +
+                   f"def f():\n    import {m}\n" + (f"    return {m}.__name__\n" if inner_used else "    return 1\n") +
+                   f"def g():\n    import {m}\n    return {m}.__name__\nprint(f(), g(), {m2}.__name__)\n")
+        out.append("import sys\nfrom os.path import join\nimport json\nfrom os.path import join as pjoin, basename\n"
+                   "print(join('a', 'b'), pjoin('c', 'd'), basename('x/y'), json.dumps(1), sys.argv[:0])\n")
     return out
 
 
@@ -303,8 +317,11 @@ def corr(ctx):
         if "err" in a:
             ctx.broke("prec driver op", str(a)); break
         back, code = preccorr.reparse(t)
-        ctx.corr_case("prec_wp", {"tree": t}, {"roundtrip": back == t, "code": code}, {"roundtrip": a["wp"][0], "code": a["render"]}, depth(t) >= 2,
-                      "wp:" + ("yes" if a["wp"][0] else "no") + ":" + preccorr.kind(t))
+        ctx.corr_case("prec_wp", {"tree": t}, {"roundtrip": back == t, "code": code}, {"roundtrip": a["wp"][preccorr.IF_SLOT], "code": a["render"]}, depth(t) >= 2,
+                      "wp:" + ("yes" if a["wp"][preccorr.IF_SLOT] else "no") + ":" + preccorr.kind(t))
+        # the right-hand side of an assignment: a bare tuple may stand there, a bare `:=` may not
+        back2, _ = preccorr.reparse(t, "rhs")
+        ctx.corr_case("prec_rhs", {"tree": t}, {"roundtrip": back2 == t}, {"roundtrip": a["rhs_ok"]}, depth(t) >= 2, "rhs:" + ("yes" if a["rhs_ok"] else "no"))
     # 2. the rewrites, through the CLI, on well-parenthesised trees
     def wp_trees(n, **kw):
         out = []
@@ -334,13 +351,15 @@ def corr(ctx):
     # 3. use-walrus-if: value x test shape x single / multiple reads
     reqs, srcs = [], []
     for _ in range(ctx.pick(120, 1200)):
-        value = preccorr.repair(preccorr.gen(rng, rng.randint(0, 3), calls=0.2, kinds=["or", "and", "lnot", "cmp", "arith", "neg", "ifx", "ifx", "named"]), 1)
+        value = preccorr.repair(preccorr.gen(rng, rng.randint(0, 3), calls=0.2, kinds=["or", "and", "lnot", "cmp", "arith", "neg", "ifx", "ifx", "named", "tup"]), preccorr.EXPR_SLOT)
+        if rng.random() < 0.2:   # a bare tuple on the right of the assignment
+            value = {"k": "tup", "a": preccorr.repair(preccorr.gen(rng, 1, calls=0.2), preccorr.EXPR_SLOT), "b": preccorr.repair(preccorr.gen(rng, 1, calls=0.2), preccorr.EXPR_SLOT), "p": False}
         shape = rng.choice(["name", "not", "not", "cmp", "cmp"])
         test = {"k": shape}
         if shape != "name": test["p"] = rng.random() < 0.2
         if shape == "cmp":
             test["op"] = rng.choice(["is_", "isNot", "eq", "ne"])
-            test["rhs"] = preccorr.repair(preccorr.gen(rng, rng.randint(0, 2), calls=0.2, kinds=["arith", "neg", "lnot", "or"]), 6)
+            test["rhs"] = preccorr.repair(preccorr.gen(rng, rng.randint(0, 2), calls=0.2, kinds=["arith", "neg", "lnot", "or"]), 7)
         reqs.append({"op": "prec_walrus", "name": "val", "value": value, "single": rng.random() < 0.6, "test": test})
     vals = common.lean_ask([{"op": "prec", "e": r["value"]} for r in reqs])
     rhss = common.lean_ask([{"op": "prec", "e": r["test"].get("rhs", {"k": "atom", "n": "a", "p": False})} for r in reqs])
